@@ -20,8 +20,15 @@
 -/
 import Corerad.Spec.C20
 import Corerad.Lemmas.Server
+import Corerad.Gen.Main
 
 namespace Corerad.Props.C20
+
+/-- How main uses the server: `Serve` runs exactly the tasks `BuildTasks` derives from the parsed
+    configuration, and the signals which stop it are `Signals()` = SIGINT, SIGTERM, SIGHUP. -/
+theorem gen_main_serves_built_tasks :
+    Gen.Main.serveRunsBuildTasks = true ∧ Gen.Main.signalsFromSignals = true ∧
+    Gen.Main.signals = ["os.Interrupt", "syscall.SIGTERM", "syscall.SIGHUP"] := by decide
 
 open Corerad Corerad.Model.Server Corerad.Spec.C20
 
